@@ -135,12 +135,21 @@ def interpreter_view(mod, spec):
     accepted = frozenset.union(*ok)
     box = {frozenset(required | set(extra)) for r in range(len(accepted - required) + 1) for extra in itertools.combinations(sorted(accepted - required), r)}
     view.update(required=required, accepted=accepted, box=(set(ok) == box))
-    bound, expect = {}, {}
+    bound, expect, renamed = {}, {}, {}
     for n in sorted(accepted):
         kind, log = call(mod, {m: gen.sentinel(m) for m in required | {n}})
         view["calls"] += 1
         assert kind == "ok"
-        levels = [lv for lv, vals in log if n in vals and vals[n] == gen.sentinel(n)]
+        # value tracing: which level sees the sentinel of n, and under which key (the key differs from n when an
+        # inline kwargs.pop/get hands the value on as another argument of the forwarding call)
+        seen = [(lv, k) for lv, vals in log for k, val in vals.items() if type(val) is int and val == gen.sentinel(n)]
+        levels = [lv for lv, k in seen if k == n]
+        renamed[n] = [[lv, k] for lv, k in seen if k != n]
+        inline = inline_popget_level(spec, n)
+        if inline is not None and any(lv == f"L{inline}" for lv, _ in log):
+            # the level with the inline pop/get was reached: it binds the name (its _log line runs before the call
+            # that contains the expression, so the value itself cannot show up there)
+            levels = [f"L{inline}"] + levels
         bound[n] = levels
         cands = []
         for lv in levels:
@@ -154,6 +163,7 @@ def interpreter_view(mod, spec):
             else:  # bound by kwargs.pop/get: no annotation; the default is the one written in the statement
                 cands.append((lv, EMPTY, popget_default(spec, lv, n)))
         expect[n] = cands
+    view["renamed"] = renamed
     view.update(bound=bound, expect=expect)
     return view
 
@@ -265,32 +275,49 @@ def canon_params(params):
 
 
 def popget_default(spec, level, name):
-    """Default written in the kwargs.pop/get statement of a level (EMPTY for pop without default)."""
+    """Default written in the kwargs.pop/get expression of a level (EMPTY for pop without default)."""
     i = int(level[1:])
-    op = spec["levels"][i][2]
-    if op in (f"P:{name}", f"G:{name}"):
+    pg = gen.op_popget(spec["levels"][i][2])
+    if pg and pg[1] == name and pg[0] in "PG":
         return gen.pdefault(i, name, spec.get("scheme", "diff"))
     return EMPTY
 
 
+def inline_popget_level(spec, name):
+    """Index of the level whose kwargs.pop/get of the name is written inline in the forwarding call, or None."""
+    for i, (_, _, op) in enumerate(spec["levels"]):
+        pg = gen.op_popget(op)
+        if pg and pg[2] and pg[1] == name:
+            return i
+    return None
+
+
 def roles(spec, name):
-    """Role letters of a name over the levels: o(wn) P(op) G(et) N(pop without default) H(ard-coded)."""
+    """Role letters of a name over the levels: o(wn) P(op) G(et) N(pop without default) H(ard-coded before **kwargs)
+    h(ard-coded after **kwargs) I / J (pop / get written inline as an argument of the forwarding call)."""
     r = set()
     for _, own, op in spec["levels"]:
         if name in own.lower():
             r.add("o")
-        if len(op) == 3 and op[2] == name:
-            r.add(op[0])
+        pg = gen.op_popget(op)
+        if pg and pg[1] == name:
+            r.add(pg[0] if not pg[2] else {"P": "I", "G": "J"}[pg[0]])
+        if gen.op_hard(op) == name:
+            r.add("h" if op[0] == "h" else "H")
     return r
+
+
+def hard_coded(spec, name):
+    return any(gen.op_hard(op) == name for _, _, op in spec["levels"])
 
 
 def name_class(spec, name):
     if name == gen.FOREIGN:
         return "foreign-name"
     r = roles(spec, name)
-    if any(link == "dict_literal" and op == f"H:{name}" for link, _, op in spec["levels"]):
+    if any(link == "dict_literal" and gen.op_hard(op) == name for link, _, op in spec["levels"]):
         return "key-given-in-dict(key=..,**kwargs)"
-    if "G" in r:
+    if r & {"G", "J"}:
         return "read-by-kwargs.get"
     if not r:
         links = {l[0] for l in spec["levels"]}
@@ -306,7 +333,8 @@ def legit_conditional(spec, name):
     two uses that may disagree - the documented 'conditional' situation."""
     seen_pg = False
     for link, own, op in spec["levels"]:
-        here_pg = len(op) == 3 and op[0] in "PG" and op[2] == name
+        pg = gen.op_popget(op)
+        here_pg = bool(pg) and pg[0] in "PG" and pg[1] == name
         here_any = here_pg or name in own.lower()
         if seen_pg and here_any:
             return True
@@ -325,7 +353,8 @@ def stacked_multi_use_levels(spec):
     the upper grouping then sees the lower level's grouped - possibly 'conditional' - parameters."""
     multi = 0
     for link, _, op in spec["levels"]:
-        multi += op[:1] in ("P", "G") or link == "ncc"
+        pg = gen.op_popget(op)
+        multi += (bool(pg) and pg[0] in "PG") or link == "ncc"
     return multi >= 2
 
 
@@ -357,10 +386,10 @@ def names_bound_below_branch(spec, view):
     if not taken:
         return set()
     i = taken[-1]
-    hard = spec["levels"][i][2]
+    hard = gen.op_hard(spec["levels"][i][2])
     below = {m for m in view["accepted"] for lv in view["bound"][m] if lv[:1] == "L" and int(lv[1:]) > i}
     # kwargs.pop(name) without default is invisible to the resolver by design (undocumented form)
-    return {m for m in below if hard != f"H:{m}" and not popped_without_default(spec, m)}
+    return {m for m in below if hard != m and not popped_without_default(spec, m)}
 
 
 def compare(spec, views, params, failed):
@@ -385,7 +414,7 @@ def compare(spec, views, params, failed):
     for n in sorted(expected - set(offered)):
         if popped_without_default(spec, n):
             continue  # kwargs.pop(name) without default is not a documented pattern: the name need not be offered
-        if len(views) > 1 and "H" in roles(spec, n) and any(n not in v["accepted"] for v in views):
+        if len(views) > 1 and hard_coded(spec, n) and any(n not in v["accepted"] for v in views):
             continue  # hard-coded at one of several calls: dropped everywhere on purpose (test_get_params_given_kwargs)
         where = [v["bound"][n] for v in views if n in v["accepted"]]
         symptoms.append(("missing", missing_class(spec, views, n), f"{n!r} is accepted and bound at {where} but not offered"))
